@@ -268,7 +268,7 @@ def run_template(t):
                 res['replays_ok'] += 2
             else:
                 pr['confirmed'] = 'not-reproduced'
-        if wm is not None and not res['problems']:
+        if wm is not None and not res['problems'] and t.meta.get('replay_witness', True):
             vals = [wm.eval(x, model_completion=True).as_long() for x in args]
             n = tv.replay_native(t, vals)
             w = replay_wasm(t, vals)
